@@ -64,7 +64,7 @@ def build_list(case):
                         x[1] = 1.0
                 else:
                     x = gen_data(rng, nprng, len(il), 'white') + 1.3
-                if case.get('frozen') and n == names[-1] and len(names) > 1:
+                if case.get('frozen') is not None and n == names[-1] and len(names) > 1:
                     # measured on this replica, but every sample identical (a frozen charge): still measured
                     x = np.full(len(il), float(case['frozen']))
                 samples.append(x)
@@ -470,8 +470,8 @@ def gen_case(ctx):
         case['cov'] = rng.choice([None, None, 1, 2, 3])
         case['cancel'] = rng.random() < 0.5
         case['mean_hit'] = case['data'] == 'count' and rng.random() < 0.15
-        if rng.random() < 0.2 and any(v > 1 for v in case['nrep'].values()):
-            case['frozen'] = rng.choice([0.0, 1.0, 2.0, -1.0])
+        if rng.random() < 0.35 and any(v > 1 for v in case['nrep'].values()):
+            case['frozen'] = rng.choice([0.0, 0.0, 0.0, 1.0, 2.0, -1.0])
     case['meta'] = rng.choice([None, None, 'plain', 'enstags'])
     if fmt == 'pobs':
         case['pobs_kind'] = rng.choice(['primary', 'primary', 'derived', 'mixed'])
@@ -494,6 +494,8 @@ def run(ctx):
         ctx.count('fmt=' + case['fmt'])
         ctx.count('data=' + case['data'])
         ctx.count('sep=' + case['sep'])
+        if case.get('frozen') is not None:
+            ctx.count('frozen=%r' % case['frozen'])
         ctx.case(case)
         for (kind, key, info) in check_case(ctx, case):
             (ctx.violation if kind == 'violation' else ctx.disagree)(key, {'case': case, 'info': info})
